@@ -115,10 +115,12 @@ void World::render_proc() {
     for (auto &p : procs) {
         std::string base = "/proc/" + std::to_string(p.pid);
         files[base] = d;
-        FileNode st; st.open_errno = p.stat_errno;
+        FileNode st; st.open_errno = p.stat_errno > 0 ? p.stat_errno : 0;
         // pid (comm) state ppid pgrp session tty_nr tpgid flags minflt cminflt majflt cmajflt utime stime ...
         st.content = std::to_string(p.pid) + " (" + p.comm + ") S " + std::to_string(p.ppid) + " " + std::to_string(p.pid) + " " + std::to_string(sid) +
                      " 34816 " + std::to_string(p.pid) + " 4194304 1234 0 0 0 3 1 0 0 20 0 1 0 8311 10000000 900 18446744073709551615 1 1 0 0 0 0 0 0 0 0 0 0 17 3 0 0 0 0 0\n";
+        if (p.stat_errno == -1) st.content = "";            // opens, but reads as empty: the process exited in between
+        else if (p.stat_errno == -2) st.content = st.content.substr(0, 5);
         files[base + "/stat"] = st;
         FileNode ss; ss.open_errno = p.status_errno;
         ss.content = "Name:\t" + p.comm + "\nUmask:\t0022\nState:\tS (sleeping)\nTgid:\t" + std::to_string(p.pid) + "\nNgid:\t0\nPid:\t" + std::to_string(p.pid) +
